@@ -16,6 +16,63 @@ use crate::{ensure, fail};
 
 pub struct C02;
 
+/// The declared building as model lines, normalised by the harness' own models of the completion
+/// (C05) and of the auxiliary split (C06): the end-to-end input of the equations. None when the
+/// statement leaves a share undefined (auxiliary energy at a step where all outputs are zero).
+pub fn own_lines(b: &crate::gen::Building) -> Option<Vec<crate::model::MLine>> {
+    use crate::gen::Kind;
+    use crate::model::{MKind, MLine};
+    let n = b.n;
+    let w = |v: &Vec<f32>| v.iter().map(|x| *x as f64).collect::<Vec<f64>>();
+    let mut out: Vec<MLine> = vec![];
+    for l in &b.lines {
+        let kind = match &l.kind {
+            Kind::Used { srv, car } => MKind::Used { srv: *srv, car: *car },
+            Kind::Prod { src } => MKind::Prod { src: *src },
+            Kind::Out { srv } => MKind::Out { srv: *srv },
+            Kind::Aux => continue,
+        };
+        out.push(MLine { id: l.id, kind, vals: w(&l.vals), comment: String::new() });
+    }
+    // completion of ambient / solar production, per system and step
+    for (car, src) in [(Car::EAMBIENTE, Src::EAMBIENTE), (Car::TERMOSOLAR, Src::TERMOSOLAR)] {
+        let mut ids: Vec<i32> = out.iter().filter(|l| matches!(&l.kind, MKind::Used { car: c, .. } if *c == car)).map(|l| l.id).collect();
+        ids.sort();
+        ids.dedup();
+        for id in ids {
+            let mut extra = vec![0.0f64; n];
+            for l in out.iter().filter(|l| l.id == id) {
+                match &l.kind {
+                    MKind::Used { car: c, .. } if *c == car => (0..n).for_each(|t| extra[t] += l.vals[t]),
+                    MKind::Prod { src: s } if *s == src => (0..n).for_each(|t| extra[t] -= l.vals[t]),
+                    _ => {}
+                }
+            }
+            let extra: Vec<f64> = extra.iter().map(|x| x.max(0.0)).collect();
+            if extra.iter().sum::<f64>() > 0.0 {
+                out.push(MLine { id, kind: MKind::Prod { src }, vals: extra, comment: String::new() });
+            }
+        }
+    }
+    // auxiliary split
+    let am = crate::props::c06::aux_model(b);
+    for ((id, srv), exp) in &am.expect {
+        let mut vals = vec![0.0f64; n];
+        for t in 0..n {
+            match exp[t] {
+                Some(v) => vals[t] = v,
+                None => {
+                    if am.declared[id][t] > 0.0 {
+                        return None;
+                    }
+                }
+            }
+        }
+        out.push(MLine { id: *id, kind: MKind::Aux { srv: *srv }, vals, comment: String::new() });
+    }
+    Some(out)
+}
+
 impl Prop for C02 {
     type Case = BFCase;
     const ID: &'static str = "C02";
@@ -88,6 +145,32 @@ impl Prop for C02 {
         )?;
         if skipped > 0 {
             ctx.skip("ratio_den_noise");
+        }
+        // end to end: the equations evaluated from the *declared* lines (own models of completion
+        // and auxiliary split), so that a mis-read tag or a wrong normalisation also shows here
+        match own_lines(&c.b) {
+            Some(lines) => {
+                let needs: std::collections::BTreeMap<Srv, f64> = {
+                    let mut m = std::collections::BTreeMap::new();
+                    for nd in &c.b.needs {
+                        *m.entry(nd.srv).or_insert(0.0) += nd.vals.iter().map(|x| *x as f64).sum::<f64>();
+                    }
+                    m
+                };
+                match evaluate(&lines, n, &needs, &inp.ft, c.k as f64, c.area as f64, c.lm) {
+                    Ok(m2) => {
+                        compare_flats(
+                            &fl,
+                            &m2.flat(),
+                            &sc,
+                            &CmpOpts { ignore: &["rer_nrb", "rer_onst"], names: ("library", "model from the declared lines"), rer_den: Some((den, sc.tot_weighted)), sub: "model_end_to_end", tol_mult: 2.0, ..Default::default() },
+                        )?;
+                        ctx.label("end_to_end");
+                    }
+                    Err(me) => fail!("model_end_to_end", "the equations cannot be evaluated from the declared lines: {:?}", me),
+                }
+            }
+            None => ctx.skip("end_to_end_undefined_aux_share"),
         }
         // net under fields the hand-written view might lack
         let jl = json_result_leaf_count(&ep);
